@@ -266,6 +266,16 @@ fn location_ok(data: &[u8], line: usize, col: usize) -> bool {
     col <= len + 1
 }
 
+/// The owned datum's own accessors are its Ref's: span, list_iter, vector_iter, value; converting it gives the value.
+fn datum_api(dm: &lexpr::Datum, msgs: &mut Vec<String>) {
+    let r = dm.as_ref();
+    let same_span = dm.span() == r.span();
+    let li = match (dm.list_iter(), r.list_iter()) { (Some(a), Some(b)) => a.map(|x| x.span()).eq(b.map(|x| x.span())), (None, None) => true, _ => false };
+    let vi = match (dm.vector_iter(), r.vector_iter()) { (Some(a), Some(b)) => a.map(|x| x.span()).eq(b.map(|x| x.span())), (None, None) => true, _ => false };
+    let conv = enc_value(&Value::from(dm.clone())) == enc_value(dm.value());
+    if !(same_span && li && vi && conv) { msgs.push("FAIL C10 Datum::span / list_iter / vector_iter / into value differ from its Ref's".to_string()); }
+}
+
 fn ref_walk(r: lexpr::datum::Ref<'_>, data: &[u8], opts: lexpr::parse::Options, parent: Option<lexpr::datum::Span>, msgs: &mut Vec<String>, depth: usize) {
     let offs = |p: lexpr::parse::Position| -> Option<usize> {
         // (1-based line, 0-based byte column) -> byte offset
@@ -314,6 +324,24 @@ fn ref_walk(r: lexpr::datum::Ref<'_>, data: &[u8], opts: lexpr::parse::Options, 
         let vals: Vec<Option<&Value>> = { let mut v = Vec::new(); let mut it = r.value().list_iter().unwrap(); let mut nones = 0; loop { match it.next() { Some(x) => v.push(Some(x)), None => { nones += 1; v.push(None); if nones >= 2 { break; } } } if v.len() > 10000 { break; } } v };
         let same = subs.len() == vals.len() && subs.iter().zip(vals.iter()).all(|(a, b)| match (a, b) { (Some(a), Some(b)) => a.value() == *b, (None, None) => true, _ => false });
         if !same { msgs.push("FAIL C10 datum list_iter differs from value list_iter".to_string()); }
+        // peek / is_empty of the datum iterator against the value iterator, step by step
+        {
+            let (mut di, mut vi) = (r.list_iter().unwrap(), r.value().list_iter().unwrap());
+            for _ in 0..subs.len().min(64) {
+                let pk = di.peek().map(|x| enc_value(x.value()));
+                if pk != vi.peek().map(enc_value) || di.is_empty() != vi.is_empty() {
+                    msgs.push("FAIL C10 datum list iterator peek / is_empty differ from the value iterator".to_string());
+                    break;
+                }
+                let nx = di.next().map(|x| enc_value(x.value()));
+                if nx != vi.next().map(enc_value) { break; }
+            }
+        }
+        // Ref derefs to the value; as_pair exposes car and cdr with their spans inside the parent
+        if let Some((a, d)) = r.as_pair() {
+            let ok = r.value().as_pair().map_or(false, |(va, vd)| a.value() == va && d.value() == vd) && std::ops::Deref::deref(&r) == r.value();
+            if !ok { msgs.push("FAIL C10 datum as_pair / deref differ from the value's pair".to_string()); }
+        }
         let is_quote_form = false;
         let _ = is_quote_form;
         for s in subs.into_iter().flatten() { visit(s, msgs); }
@@ -422,6 +450,51 @@ pub fn numeric_oracle(text: &[u8], res: &str, fast: bool) -> Option<String> {
     } else if close(want, g, 2f64.powi(-50)) { None } else {
         Some(format!("FAIL C05 literal {:?}...: {:e} read as {:e} (relative error above 2^-50)", &t[..t.len().min(40)], want, g))
     }
+}
+
+/// Every convenience entry point is its `_custom` counterpart with `Options::default()` / `Options::elisp()`, `FromStr`
+/// is `from_str`, and the `Parser` constructors and method aliases (`parse`, `parse_value`, `end`) are the documented
+/// shorthands.  Returns the first disagreement.
+pub fn entry_points_disagree(data: &[u8], elisp: bool) -> Option<String> {
+    use crate::ops::{item_datum, item_value};
+    use lexpr::parse::{Options, Parser};
+    let o = || if elisp { Options::elisp() } else { Options::default() };
+    let iv = |r: Result<Value, lexpr::parse::Error>| item_value(r.map(Some));
+    let id = |r: Result<lexpr::Datum, lexpr::parse::Error>| item_datum(r.map(Some));
+    let mut pairs: Vec<(&str, String, String)> = Vec::new();
+    let st = std::str::from_utf8(data).ok();
+    if elisp {
+        pairs.push(("from_slice_elisp", iv(lexpr::parse::from_slice_elisp(data)), iv(lexpr::from_slice_custom(data, o()))));
+        pairs.push(("from_reader_elisp", iv(lexpr::parse::from_reader_elisp(data)), iv(lexpr::from_reader_custom(data, o()))));
+        pairs.push(("datum::from_slice_elisp", id(lexpr::datum::from_slice_elisp(data)), id(lexpr::datum::from_slice_custom(data, o()))));
+        pairs.push(("datum::from_reader_elisp", id(lexpr::datum::from_reader_elisp(data)), id(lexpr::datum::from_reader_custom(data, o()))));
+        if let Some(t) = st {
+            pairs.push(("from_str_elisp", iv(lexpr::parse::from_str_elisp(t)), iv(lexpr::from_str_custom(t, o()))));
+            pairs.push(("datum::from_str_elisp", id(lexpr::datum::from_str_elisp(t)), id(lexpr::datum::from_str_custom(t, o()))));
+        }
+    } else {
+        pairs.push(("from_slice", iv(lexpr::from_slice(data)), iv(lexpr::from_slice_custom(data, o()))));
+        pairs.push(("from_reader", iv(lexpr::from_reader(data)), iv(lexpr::from_reader_custom(data, o()))));
+        pairs.push(("datum::from_slice", id(lexpr::datum::from_slice(data)), id(lexpr::datum::from_slice_custom(data, o()))));
+        pairs.push(("datum::from_reader", id(lexpr::datum::from_reader(data)), id(lexpr::datum::from_reader_custom(data, o()))));
+        if let Some(t) = st {
+            pairs.push(("from_str", iv(lexpr::from_str(t)), iv(lexpr::from_str_custom(t, o()))));
+            pairs.push(("FromStr", iv(t.parse::<Value>()), iv(lexpr::from_str_custom(t, o()))));
+            pairs.push(("datum::from_str", id(lexpr::datum::from_str(t)), id(lexpr::datum::from_str_custom(t, o()))));
+            // Parser::from_str + parse_value + end  =  from_str
+            let mut p = Parser::from_str(t);
+            let r = p.parse_value().and_then(|v| p.end().map(|_| v));
+            pairs.push(("Parser::from_str/parse_value/end", iv(r), iv(lexpr::from_str_custom(t, o()))));
+        }
+        let mut p = Parser::from_slice(data);
+        let r = p.expect_value().and_then(|v| p.expect_end().map(|_| v));
+        pairs.push(("Parser::from_slice/expect_value/expect_end", iv(r), iv(lexpr::from_slice_custom(data, o()))));
+        let mut p1 = Parser::from_reader(data);
+        let mut p2 = Parser::from_reader_custom(data, o());
+        pairs.push(("Parser::from_reader/parse", item_value(p1.parse()), item_value(p2.next_value())));
+        pairs.push(("Parser::from_reader/parse (second call)", item_value(p1.parse()), item_value(p2.next_value())));
+    }
+    pairs.into_iter().find(|(_, a, b)| a != b).map(|(n, a, b)| format!("{}: {} vs the custom entry point {}", n, a, b))
 }
 
 /// The numeric-literal grammar of C05: optional radix prefix, optional sign, digits of the radix, and for
@@ -640,7 +713,7 @@ fn check_inner(line: &str, res: &str, t: &[&str], mut m: Vec<String>) -> Vec<Str
             let mut p = lexpr::Parser::from_reader_custom(crate::ops::make_reader(src, &data), opts);
             for _ in 0..api.len() {
                 match std::panic::catch_unwind(std::panic::AssertUnwindSafe(|| p.next_datum())) {
-                    Ok(Ok(Some(dm))) => { if nesting(dm.value()) < 60 { ref_walk(dm.as_ref(), &data, opts, None, &mut m, 0); } }
+                    Ok(Ok(Some(dm))) => { if nesting(dm.value()) < 60 { datum_api(&dm, &mut m); ref_walk(dm.as_ref(), &data, opts, None, &mut m, 0); } }
                     Ok(Ok(None)) => break,
                     Ok(Err(_)) => {}
                     Err(_) => break,
@@ -699,6 +772,11 @@ fn check_inner(line: &str, res: &str, t: &[&str], mut m: Vec<String>) -> Vec<Str
             }
             if api == "v1" && src == "b" && ro == R_DEFAULT {
                 if let Some(msg) = numeric_oracle(&data, res, t[1] == "1") { m.push(msg); }
+            }
+            if (api == "v1" || api == "d1") && src == "b" && (ro == R_DEFAULT || ro == R_ELISP) {
+                if let Some(d) = entry_points_disagree(&data, ro == R_ELISP) {
+                    for p in ["C01", "C02", "C06", "C10"] { m.push(format!("FAIL {} entry points disagree: {}", p, d)); }
+                }
             }
             if api.starts_with("r:") {
                 let n_items = items.iter().filter(|i| **i != "none").count();
